@@ -118,7 +118,7 @@ fn tag_image(kind: &Kind, content: &[u8]) -> Vec<u8> {
 
 fn parse_side(ctx: &mut Ctx, arena: &Arena) {
     const ALPHA: [u8; 6] = [0x61, 0x00, 0xC3, 0xA9, 0xE2, 0xFF];
-    let maxlen = if ctx.dev_profile() { 5 } else { 6 };
+    let maxlen = if ctx.dev_profile() { 5 } else if ctx.quick() { 6 } else { 7 };
     ctx.bound("parse", format!("all byte strings over {{61,00,C3,A9,E2,FF}} up to length {} as declared content of the three string kinds x padding {{zero, non-zero marker}}; tag level (flush against a guard page, bytes after the padded tag varied by fills A/B) and region level (successor = end tag, i.e. starts with 00, or a custom tag) through the typed getters", maxlen));
     for kind in KINDS.iter() {
         for len in 0..=maxlen {
@@ -198,7 +198,7 @@ fn parse_side(ctx: &mut Ctx, arena: &Arena) {
 fn build_side(ctx: &mut Ctx) {
     use multiboot2::MaybeDynSized;
     const SYMS: [&str; 4] = ["a", "\u{e9}", "\u{20ac}", "\0"];
-    let maxsym = if ctx.quick() { 5 } else { 6 };
+    let maxsym = if ctx.quick() { 5 } else { 8 };
     ctx.bound("build", format!("all strings over {{a, e-acute (2 bytes), euro sign (3 bytes), NUL}} up to {} symbols plus one string of each length 0..=40, for CommandLineTag::new, BootLoaderNameTag::new and ModuleTag::new", maxsym));
     let mut texts: Vec<String> = Vec::new();
     for n in 0..=maxsym {
